@@ -6,6 +6,7 @@
   check.py replay <file>
   check.py selftest-determinism [Cxx ...]
   check.py selftest-mutants [name ...]
+  check.py reach [Cxx ...]           line reach of a sample of runs into the code under test
 
 Imported once as a script (never via -m), so no module is loaded twice.
 """
@@ -38,6 +39,11 @@ def main(argv):
         from dsim import selftest
 
         return selftest.digests_cmd(argv[1], [int(x) for x in argv[3].split(",")], int(argv[2]))
+    if cmd == "reach":
+        rc = 0
+        for prop in (argv[1:] or sorted(runner.ENGINES)):
+            rc = max(rc, runner.reach(prop))
+        return rc
     if cmd == "selftest-determinism":
         from dsim import selftest
 
